@@ -13,6 +13,7 @@ mod flow;
 mod gate;
 mod libcall;
 mod mt;
+mod notify;
 mod ops;
 mod push;
 mod replay;
@@ -325,6 +326,26 @@ fn main() {
         "replay" => {
             let jobs = read_jobs(args.get(2).expect("scenario file"));
             parent(jobs, &out, chunks, threads);
+        }
+        "notify" => {
+            let path = args.get(2).expect("sequences file");
+            let file = std::fs::File::open(path).expect("open sequences file");
+            let mut f = std::io::BufWriter::new(std::fs::File::create(format!("{}.0.ndjson", out)).expect("create output"));
+            let mut n = 0;
+            for line in std::io::BufReader::new(file).lines() {
+                let line = line.unwrap();
+                if line.trim().is_empty() {
+                    continue;
+                }
+                let ops: Vec<notify::Op> = serde_json::from_str(&line).expect("bad sequence");
+                for event in notify::run(n, &ops) {
+                    serde_json::to_writer(&mut f, &event).unwrap();
+                    f.write_all(b"\n").unwrap();
+                }
+                n += 1;
+            }
+            f.flush().unwrap();
+            eprintln!("dvh: {} notify sequences", n);
         }
         "flow" => {
             let path = args.get(2).expect("schedules file");
